@@ -50,6 +50,7 @@ func (ex *Exec) VerifyFunc(ct *Contract, fn *ssa.Function) *FnReport {
 	fr.verifying = true
 	fr.safety = ct.Safety
 	rep.Loops = len(fr.loops)
+	fr.debugCallSites()
 	ex.inputs = nil
 	for _, p := range fn.Params {
 		v := f.Var("p."+sanitize(p.Name()), ex.tm.SortOf(p.Type()))
